@@ -348,12 +348,13 @@ type Decls struct {
 	tids    map[string]int
 	tidTy   map[string]types.Type
 	structBase map[string]int
+	structPkg  map[string]string
 	tidSym  map[string]string
 	facts   []*Term // global axioms (ground facts about symbols)
 }
 
 func newDecls() *Decls {
-	return &Decls{seen: map[string]bool{}, structs: map[string]*types.Struct{}, tids: map[string]int{}, tidTy: map[string]types.Type{}, structBase: map[string]int{}, tidSym: map[string]string{}}
+	return &Decls{seen: map[string]bool{}, structs: map[string]*types.Struct{}, tids: map[string]int{}, tidTy: map[string]types.Type{}, structBase: map[string]int{}, structPkg: map[string]string{}, tidSym: map[string]string{}}
 }
 
 func (d *Decls) add(name, decl string) {
@@ -431,7 +432,11 @@ func (d *Decls) sortOf(t types.Type) string {
 		return n
 	case *types.Named:
 		if st, ok := tt.Underlying().(*types.Struct); ok {
-			return d.structSort(sanitizeTypeName(tt), st)
+			sn := d.structSort(sanitizeTypeName(tt), st)
+			if tt.Obj().Pkg() != nil {
+				d.structPkg[sn] = tt.Obj().Pkg().Path()
+			}
+			return sn
 		}
 		return d.sortOf(tt.Underlying())
 	case *types.Basic:
